@@ -220,7 +220,7 @@ Fixpoint json_string_aux (fuel : nat) (s : bytes) : bytes :=
             match decode_rune s with
             | Some (c, rest) =>
                 let size := (List.length s - List.length rest)%nat in
-                if (c =? rune_error)%N && Nat.eqb size 1 then codes "�" ++ json_string_aux f rest
+                if (c =? rune_error)%N && Nat.eqb size 1 then codes "\ufffd" ++ json_string_aux f rest
                 else firstn size s ++ json_string_aux f rest
             | None => []
             end
@@ -1174,28 +1174,33 @@ Definition declined : list (string * Z) :=
 
 Close Scope string_scope.
 
-Fixpoint assoc_str {A} (l : list (string * A)) (name : bytes) : option A :=
+(* the tables keyed by bytes, converted once (a constant of the extracted program) *)
+Definition keyed {A} (l : list (string * A)) : list (bytes * A) := map (fun p => (codes (fst p), snd p)) l.
+Definition natives0b := keyed natives0.
+Definition natives1b := keyed natives1.
+Definition natives2b := keyed natives2.
+Definition natives3b := keyed natives3.
+Definition declinedb := keyed declined.
+
+Fixpoint assoc_b {A} (l : list (bytes * A)) (name : bytes) : option A :=
   match l with
   | [] => None
-  | (s, a) :: r => if list_N_eqb name (codes s) then Some a else assoc_str r name
+  | (s, a) :: r => if list_N_eqb name s then Some a else assoc_b r name
   end.
 
 Definition is_declined (name : bytes) (arity : nat) : bool :=
-  existsb (fun p => list_N_eqb name (codes (fst p)) && (snd p =? Z.of_nat arity)) declined.
+  existsb (fun p => list_N_eqb name (fst p) && (snd p =? Z.of_nat arity)) declinedb.
 
 (* None: gojq has no such native *)
 Definition call_native (name : bytes) (v : jv) (args : list jv) : option nres :=
   match args with
-  | [] => match assoc_str natives0 name with Some f => Some (f v) | None =>
+  | [] => match assoc_b natives0b name with Some f => Some (f v) | None =>
             if is_declined name 0 then Some (NSkip name) else None end
-  | [a] => match assoc_str natives1 name with Some f => Some (f v a) | None =>
+  | [a] => match assoc_b natives1b name with Some f => Some (f v a) | None =>
             if is_declined name 1 then Some (NSkip name) else None end
-  | [a; b] => match assoc_str natives2 name with Some f => Some (f v a b) | None =>
+  | [a; b] => match assoc_b natives2b name with Some f => Some (f v a b) | None =>
             if is_declined name 2 then Some (NSkip name) else None end
-  | [a; b; c] => match assoc_str natives3 name with Some f => Some (f v a b c) | None =>
+  | [a; b; c] => match assoc_b natives3b name with Some f => Some (f v a b c) | None =>
             if is_declined name 3 then Some (NSkip name) else None end
   | _ => None
   end.
-
-Definition binop_of_name (name : bytes) : option (jv -> jv -> nres) :=
-  option_map (fun f => f VNull) (assoc_str natives2 name).
